@@ -4,14 +4,18 @@ pub use methods::dispatch as lg;
 
 #[dispatch]
 mod methods {
-    use crate::CelValue;
+    use crate::{CelError, CelResult, CelValue};
 
-    fn lg(n: i64) -> i64 {
-        n.ilog2() as i64
+    fn lg(n: i64) -> CelResult<i64> {
+        n.checked_ilog2()
+            .map(|v| v as i64)
+            .ok_or_else(|| CelError::value("lg() requires a positive argument"))
     }
 
-    fn lg(n: u64) -> u64 {
-        n.ilog2() as u64
+    fn lg(n: u64) -> CelResult<u64> {
+        n.checked_ilog2()
+            .map(|v| v as u64)
+            .ok_or_else(|| CelError::value("lg() requires a positive argument"))
     }
 
     fn lg(n: f64) -> f64 {
